@@ -197,6 +197,7 @@ def run_case(case, ctx):
                 coords = np.radians(coords)
         single = len(qll) == 1
         arg = coords[0] if (single and si % 2 == 0) else coords
+        arg_before = np.array(arg, copy=True)
 
         # ---- brute force
         TOL = None
@@ -311,6 +312,10 @@ def run_case(case, ctx):
                     if len(d_l[qi]) != len(got) or not np.all(np.abs(d_l[qi] - exp) <= (1e-9 * np.abs(exp) + np.array([tol[i] for i in got]) * unit)):
                         bad("distance_units", "wrong-distance", f"radius query {qll[qi]} in_radians={in_rad}: returned {d_l[qi].tolist()} expected {exp.tolist()}")
                         break
+        # a query is a read: the caller's coordinate array must come back untouched
+        ctx.ev("query_args_unchanged")
+        if not np.array_equal(np.asarray(arg), arg_before):
+            bad("query_args_unchanged", "modified", f"the query array passed in was changed by the call: {np.asarray(arg).ravel()[:4].tolist()} (was {arg_before.ravel()[:4].tolist()})")
         if fails:
             return fails
     return fails
